@@ -40,6 +40,15 @@ INFO = {
  "C18-g": ("conflict search pre-filters by creation time only (ties dropped on both sides)", "overlapping settings with identical creationTimestamp", ""),
  "C19-g": ("canary unpause refuses when the canary-paused annotation is absent", "canary paused by the controller itself (condition on the replica set, no annotation)", "no-failing-input-found (440 s) -> Spec.C19.mustAct / clause C19.acts-when-applicable, theorem C19_acts_when_applicable"),
  "C20-g": ("label keys and values sorted independently", "two keys whose order swaps under sanitising", ""),
+ # eighth wave (-h); C04 and C11 re-invented C15-g (seeded/duplicates-wave8.json)
+ "C02-h": ("node fitness cached per (replica set, node) in the replica-set reconciler", "same long-lived reconciler; a node's taints / labels change after it was first looked at", ""),
+ "C05-h": ("IsCanaryDeploymentEnded: the noRestartsDuration remainder overwrites the duration remainder (max lost)", "auto mode, noRestartsDuration < duration, a recorded restart, quiet period over before the duration", ""),
+ "C09-h": ("slow-start reference falls back to the replica set's creation time when no Active condition is stored", "replica set promoted after a canary phase, older than one interval, more empty nodes than the increase", ""),
+ "C10-h": ("a failed List of the settings is logged and the sync continues with no settings", "settings List failing in a sync that creates a pod on a node selected by a valid setting", "MISSED -> read faults in ers_reconcile (k-th List, or the first List of a kind, fails; only safety clauses judged), directed class settings:directed-valid-selecting, clause C10.api-resources"),
+ "C12-h": ("replica-set list selector built with validation; on error the label option is dropped", "an ExtendedDaemonSet name longer than 63 characters (no valid label value) + a neighbour in the namespace", "MISSED -> class eds-long-name in eds_reconcile; C12.no-adoption / C12.writes-owned"),
+ "C15-h": ("manageStatus restarts the canary status when the up-to-date replica set differs from the recorded canary one", "second template change during a canary after the canary pods restarted", "no-failing-input-found -> clause C15.keep(reconcile) on every real Reconcile"),
+ "C16-h": ("canary duration defaults guarded by the controller-level default mode instead of the spec's mode", "explicit validationMode differing from the controller's default, no durations set", ""),
+ "C19-h": ("rolling-update pause / freeze guard reads status.state == Canary instead of status.canary", "a paused canary (state Canary Paused) or a state string not yet refreshed", "MISSED -> the cli generator draws the state string independently of status.canary; C19.refuses-without-precondition"),
 }
 def main():
     res = sys.argv[1]
